@@ -36,6 +36,9 @@ def rule_local_histogram(ctx, f, rid):
         bk = [e for e in rest if e["comp"] == "buckets"]
         ok = len(sm) == 1 and peel(sm[0]["call"].args[1]) == SELF_FIELD("sum")
         ctx.ob(rid, "LocalHistogramCore::flush|sum", ok, "the batch sum handed over must be self.sum", site=b.raw["span"]["at"])
+        oku = ok and count_range(b, [sm[0]["bb"]])[1] == 1 and b.all_paths_pass(e1["bb"], [sm[0]["bb"]])
+        ctx.ob(rid, "LocalHistogramCore::flush|sum-unconditional", oku,
+               "once the batch is claimed its sum must be added exactly once on every path (a sum that is zero, negative or NaN is still the batch's sum)", site=b.raw["span"]["at"])
         ok = len(bk) == 1
         if ok:
             from pvrules.rules import is_zero_skip_filter
